@@ -4,66 +4,99 @@
   The data (RV/Gen/C18*.lean) is transcribed on every run from the code under test:
   the C side from the preprocessed header as laid out by the compiler, the Python side from
   the ctypes classes of the scratch package.  This file is the *comparison*: a matcher
-  that pairs ctypes fields with C members by position/offset, the kind compatibility
-  relation, the name convention, and the option-name rule.  Everything is a `Bool`/`Option`
-  function by structural recursion so that the kernel can evaluate it on the whole tables
-  (`decide +kernel`) and the native driver `drv_c18` can print the first mismatch.
+  that pairs ctypes fields with C members by position and checks offsets, the kind
+  compatibility relation, the name convention, and the option-name rule.  Everything is a
+  `Bool`/`List` function by structural recursion so that the kernel can evaluate it on the
+  whole tables (`decide +kernel`) and the native driver `drv_c18` can print every mismatch.
 
   Mathlib-free.
 -/
 namespace RV.Layout
 
+/-- Identifiers travel as lists of code points, not `String`s: the kernel evaluates `Nat`
+    arithmetic natively, whereas every `String` primitive unfolds to UTF-8 byte-array code
+    (measured: 20–30 ms per `startsWith`/`drop` in the kernel, 2.4 GB for the name table).
+    Generated tables write `n!"reb_simulation"`, which the macro below expands at elaboration
+    time to `[114, 101, 98, …]`. -/
+abbrev Name := List Nat
+
+open Lean in
+macro:max "n!" s:str : term => do
+  let cs ← s.getString.toList.toArray.mapM (fun c => `(nat_lit $(Syntax.mkNumLit (toString c.toNat))))
+  `(([$cs,*] : List Nat))
+
+def Name.str (n : Name) : String := String.ofList (n.map Char.ofNat)
+
+def nameEq : Name → Name → Bool
+  | [], [] => true
+  | a :: r, b :: r' => Nat.beq a b && nameEq r r'
+  | _, _ => false
+
 /-- what a member is, as far as a mirror has to agree on it -/
 inductive Kind where
   | int (signed : Bool) (bytes : Nat)
-  | enm (name : String) (signed : Bool) (bytes : Nat)   -- C enumeration (C side only)
+  | enm (name : Name) (signed : Bool) (bytes : Nat)     -- C enumeration (C side only)
   | f64 | f32 | chr
   | void                                                 -- only as pointee / return type
-  | opaque (name : String)                               -- a type neither side mirrors (FILE, pthread_mutex_t …)
-  | struct (name : String)                               -- embedded structure (C tag / Python class name)
+  | opaque (name : Name)                                 -- a type neither side mirrors (FILE, pthread_mutex_t …)
+  | struct (name : Name)                                 -- embedded structure (C tag / Python class name)
   | ptr (to : Kind)                                      -- data pointer
   | fptr (ret : Kind) (nargs : Nat)                      -- function pointer
   | arr (elem : Kind) (n : Nat)
   deriving Repr, Inhabited
 
-/-- one line of a generated table: (structure, member, offset, size, kind) -/
-abbrev Row := String × String × Nat × Nat × Kind
-
+/-- one member: ⟨name, offset, size, kind⟩ -/
 structure Field where
-  name : String
+  name : Name
   off : Nat
   size : Nat
   kind : Kind
   deriving Repr, Inhabited
 
+/-- a generated layout table: (structure or class, total size, members in declaration order) -/
+abbrev StructTab := List (Name × Nat × List Field)
+
 /-- Python class -> (C structure, may mirror only a prefix) -/
-abbrev ClassMap := List (String × String × Bool)
+abbrev ClassMap := List (Name × Name × Bool)
 
 structure OptFamily where
-  dict : String
-  struct : String
-  member : String
-  cls : String
-  prop : String
-  pre : String
+  dict : Name
+  struct : Name
+  member : Name
+  cls : Name
+  prop : Name
+  pre : Name
   deriving Repr, Inhabited
 
 /-! ### table access -/
 
-def fieldsOf (s : String) : List Row → List Field
-  | [] => []
-  | (s', n, o, z, k) :: r => if s' == s then ⟨n, o, z, k⟩ :: fieldsOf s r else fieldsOf s r
-
-def lookup {α : Type} (k : String) : List (String × α) → Option α
+def lookup {α : Type} (k : Name) : List (Name × α) → Option α
   | [] => none
-  | (k', v) :: r => if k' == k then some v else lookup k r
+  | (k', v) :: r => if nameEq k' k then some v else lookup k r
 
-def structOf (cm : ClassMap) (cls : String) : Option String :=
-  (lookup cls cm).map (·.1)
+/-- members of a structure (empty if the table has no such structure) -/
+def fieldsOf (s : Name) (t : StructTab) : List Field :=
+  match lookup s t with
+  | some (_, fs) => fs
+  | none => []
 
-def memStr (x : String) : List String → Bool
+def sizeOf? (s : Name) (t : StructTab) : Option Nat :=
+  match lookup s t with
+  | some (z, _) => some z
+  | none => none
+
+def structOf (cm : ClassMap) (cls : Name) : Option Name :=
+  match lookup cls cm with
+  | some (s, _) => some s
+  | none => none
+
+def memName (x : Name) : List Name → Bool
   | [] => false
-  | y :: r => x == y || memStr x r
+  | y :: r => nameEq x y || memName x r
+
+def optNameEq : Option Name → Name → Bool
+  | some a, b => nameEq a b
+  | none, _ => false
 
 /-! ### kind compatibility (C kind on the left, ctypes kind on the right) -/
 
@@ -80,7 +113,7 @@ def kindOk (cm : ClassMap) : Kind → Kind → Bool
   | .void, p => match p with | .void => true | _ => false
   | .opaque _, _ => false
   | .struct s, p => match p with
-      | .struct c => structOf cm c == some s
+      | .struct c => optNameEq (structOf cm c) s
       | _ => false
   | .ptr c, p => match p with
       | .ptr .void => true            -- c_void_p: an untyped data pointer mirrors any data pointer
@@ -105,186 +138,244 @@ def span (p : Field) (c : Field) : Nat :=
   | .arr _ n => if isArr c.kind then 1 else n
   | _ => 1
 
+/-- split off the first `n` elements; `none` if the list is shorter -/
+def splitN {α : Type} : Nat → List α → Option (List α × List α)
+  | 0, l => some ([], l)
+  | _ + 1, [] => none
+  | n + 1, x :: r => match splitN n r with
+    | some (a, b) => some (x :: a, b)
+    | none => none
+
 /-- pair each ctypes field with the run of C members it stands for (by position; offsets are
-    checked afterwards by `pairOk`).  Returns the pairs and the C members left over;
-    `none` when the C members run out. -/
+    checked afterwards by `pairWhy`).  Returns the pairs and the C members left over;
+    `none` when the C members run out (or a ctypes array has length 0). -/
 def pairUp : List Field → List Field → Option (List (Field × List Field) × List Field)
   | [], cs => some ([], cs)
   | _ :: _, [] => none
   | p :: ps, c :: cs =>
-    let n := span p c
-    if n == 0 || (c :: cs).length < n then none else
-    match pairUp ps ((c :: cs).drop n) with
-    | none => none
-    | some (prs, rest) => some ((p, (c :: cs).take n) :: prs, rest)
+    match span p c with
+    | 0 => none
+    | n + 1 =>
+      match splitN n cs with
+      | none => none
+      | some (run, rest) =>
+        match pairUp ps rest with
+        | none => none
+        | some (prs, left) => some ((p, c :: run) :: prs, left)
 
 /-- a run of C members of element size `es`, consecutive from `off`, each compatible with `ek` -/
 def runOk (cm : ClassMap) (ek : Kind) (es : Nat) : Nat → List Field → Bool
   | _, [] => true
   | off, c :: cs => c.off == off && c.size == es && kindOk cm c.kind ek && runOk cm ek es (off + es) cs
 
-/-- why two kinds are not compatible (only called when `kindOk` is false) -/
-def kindWhy : Kind → Kind → String
-  | .int _ n, .int _ n' => if n == n' then "sign" else "kind"
-  | .ptr _, .ptr _ => "pointee"
-  | .fptr _ _, .fptr _ _ => "signature"
-  | _, _ => "kind"
+/-- category of a disagreement -/
+inductive Why where
+  | offset | size | sign | pointee | signature | kind | run
+  | tooManyFields      -- the ctypes class declares more members than the C structure has
+  | notMirrored        -- a C member (not in an allowed tail) has no ctypes field
+  deriving Repr, Inhabited, DecidableEq
 
-/-- same bytes, same size, compatible kind: `none`, otherwise the category of the disagreement
-    ("offset", "size", "sign", "pointee", "signature", "kind", "run") -/
-def pairWhy (cm : ClassMap) (pr : Field × List Field) : Option String :=
+def Why.str : Why → String
+  | .offset => "offset" | .size => "size" | .sign => "sign" | .pointee => "pointee"
+  | .signature => "signature" | .kind => "kind" | .run => "run"
+  | .tooManyFields => "too-many-fields" | .notMirrored => "not-mirrored"
+
+def Why.beq : Why → Why → Bool
+  | .offset, .offset | .size, .size | .sign, .sign | .pointee, .pointee | .signature, .signature
+  | .kind, .kind | .run, .run | .tooManyFields, .tooManyFields | .notMirrored, .notMirrored => true
+  | _, _ => false
+
+/-- why two kinds are not compatible (only consulted when `kindOk` is false) -/
+def kindWhy : Kind → Kind → Why
+  | .int _ n, .int _ n' => if n == n' then .sign else .kind
+  | .ptr _, .ptr _ => .pointee
+  | .fptr _ _, .fptr _ _ => .signature
+  | _, _ => .kind
+
+/-- same bytes, same size, compatible kind: `none`; otherwise the category of the disagreement -/
+def pairWhy (cm : ClassMap) (pr : Field × List Field) : Option Why :=
   match pr.2 with
   | [c] =>
-    if c.off != pr.1.off then some "offset"
-    else if c.size != pr.1.size then some "size"
-    else if isArr pr.1.kind && !isArr c.kind then
-      match pr.1.kind with
-      | .arr ek n => if n == 1 && kindOk cm c.kind ek then none else some "kind"
-      | _ => some "kind"
-    else if kindOk cm c.kind pr.1.kind then none else some (kindWhy c.kind pr.1.kind)
+    if c.off != pr.1.off then some .offset
+    else if c.size != pr.1.size then some .size
+    else if kindOk cm c.kind pr.1.kind then none
+    else match pr.1.kind with
+      | .arr ek n => if !isArr c.kind && n == 1 && kindOk cm c.kind ek then none else some .kind
+      | k => some (kindWhy c.kind k)
   | run =>
     match pr.1.kind with
     | .arr ek n => if n != 0 && run.length == n && pr.1.size == n * (pr.1.size / n)
-                      && runOk cm ek (pr.1.size / n) pr.1.off run then none else some "run"
-    | _ => some "run"
-
-def pairOk (cm : ClassMap) (pr : Field × List Field) : Bool := (pairWhy cm pr).isNone
+                      && runOk cm ek (pr.1.size / n) pr.1.off run then none else some .run
+    | _ => some .run
 
 /-- (structure, ctypes field, C member, category) -/
-abbrev Bad := String × String × String × String
+abbrev Bad := Name × Name × Name × Why
+
+def badEq (x y : Bad) : Bool :=
+  nameEq x.1 y.1 && nameEq x.2.1 y.2.1 && nameEq x.2.2.1 y.2.2.1 && Why.beq x.2.2.2 y.2.2.2
 
 def memBad (x : Bad) : List Bad → Bool
   | [] => false
-  | y :: r => (x.1 == y.1 && x.2.1 == y.2.1 && x.2.2.1 == y.2.2.1 && x.2.2.2 == y.2.2.2) || memBad x r
+  | y :: r => badEq x y || memBad x r
 
 def subsetBad (a b : List Bad) : Bool := a.all fun x => memBad x b
 
+def headName : List Field → Name
+  | [] => []
+  | c :: _ => c.name
+
 /-- every pair that disagrees -/
-def badPairs (cm : ClassMap) (struct : String) : List (Field × List Field) → List Bad
+def badPairs (cm : ClassMap) (struct : Name) : List (Field × List Field) → List Bad
   | [] => []
   | pr :: r => match pairWhy cm pr with
     | none => badPairs cm struct r
-    | some w => (struct, pr.1.name, (pr.2.head?.map (·.name)).getD "", w) :: badPairs cm struct r
+    | some w => (struct, pr.1.name, headName pr.2, w) :: badPairs cm struct r
 
-/-- all layout disagreements of one class against one structure; structural failures
-    (more ctypes fields than C members, C members left over) are reported with an empty field name -/
-def layoutBad (cm : ClassMap) (pfx : Bool) (struct : String) (py c : List Field) : List Bad :=
+/-- all layout disagreements of one class against one structure -/
+def layoutBad (cm : ClassMap) (pfx : Bool) (struct : Name) (py c : List Field) : List Bad :=
   match pairUp py c with
-  | none => [(struct, "", "", "ctypes class declares more members than the C structure has")]
+  | none => [(struct, [], [], .tooManyFields)]
   | some (prs, rest) =>
     badPairs cm struct prs ++
     match rest with
     | [] => []
-    | c :: _ => if pfx then [] else [(struct, "", c.name, "C member not mirrored")]
+    | c :: _ => if pfx then [] else [(struct, [], c.name, .notMirrored)]
 
 def layoutOk (cm : ClassMap) (pfx : Bool) (py c : List Field) : Bool :=
-  (layoutBad cm pfx "" py c).isEmpty
+  (layoutBad cm pfx [] py c).isEmpty
 
 /-! ### names -/
 
 /-- the leading-underscore convention: a private Python field `_x` mirrors C member `x` -/
-def stripUnderscore (s : String) : String :=
-  if s.startsWith "_" then (s.drop 1).toString else s
+def stripUnderscore : Name → Name
+  | 95 :: r => r
+  | l => l
 
-def memTriple (a b c : String) : List (String × String × String) → Bool
+abbrev Triple := Name × Name × Name
+
+def memTriple (a b c : Name) : List Triple → Bool
   | [] => false
-  | (x, y, z) :: r => (x == a && y == b && z == c) || memTriple a b c r
+  | (x, y, z) :: r => (nameEq x a && nameEq y b && nameEq z c) || memTriple a b c r
 
-def runNames (base : String) : Nat → List Field → Bool
+/-- decimal digits of an index below 100 (arrays standing for longer runs are rejected) -/
+def idxDigits (i : Nat) : Option Name :=
+  if i < 10 then some [48 + i] else if i < 100 then some [48 + i / 10, 48 + i % 10] else none
+
+/-- `max_radius : c_double*2` stands for `max_radius0`, `max_radius1` -/
+def runNames (base : Name) : Nat → List Field → Bool
   | _, [] => true
-  | i, c :: cs => c.name == base ++ toString i && runNames base (i + 1) cs
+  | i, c :: cs => (match idxDigits i with
+                   | some d => nameEq c.name (base ++ d)
+                   | none => false) && runNames base (i + 1) cs
 
-def nameOk (ren : List (String × String × String)) (struct : String) (pr : Field × List Field) : Bool :=
+def nameOk (ren : List Triple) (struct : Name) (pr : Field × List Field) : Bool :=
   match pr.2 with
-  | [c] => pr.1.name == c.name || stripUnderscore pr.1.name == c.name || memTriple struct pr.1.name c.name ren
+  | [c] => nameEq pr.1.name c.name || nameEq (stripUnderscore pr.1.name) c.name
+           || memTriple struct pr.1.name c.name ren
   | run => runNames (stripUnderscore pr.1.name) 0 run
 
 /-- the (structure, Python field, C member) pairs whose names do not agree -/
-def badNames (ren : List (String × String × String)) (struct : String) :
-    List (Field × List Field) → List (String × String × String)
+def badNames (ren : List Triple) (struct : Name) : List (Field × List Field) → List Triple
   | [] => []
   | pr :: r => if nameOk ren struct pr then badNames ren struct r
-               else (struct, pr.1.name, (pr.2.head?.map (·.name)).getD "") :: badNames ren struct r
+               else (struct, pr.1.name, headName pr.2) :: badNames ren struct r
 
 /-! ### whole tables -/
 
 structure Tables where
-  cRows : List Row
-  cSizes : List (String × Nat)
-  pyRows : List Row
-  pySizes : List (String × Nat)
+  c : StructTab
+  py : StructTab
   cm : ClassMap
 
-def classLayoutBad (t : Tables) (e : String × String × Bool) : List Bad :=
-  layoutBad t.cm e.2.2 e.2.1 (fieldsOf e.1 t.pyRows) (fieldsOf e.2.1 t.cRows)
+def classLayoutBad (t : Tables) (e : Name × Name × Bool) : List Bad :=
+  layoutBad t.cm e.2.2 e.2.1 (fieldsOf e.1 t.py) (fieldsOf e.2.1 t.c)
 
 /-- every layout disagreement of every mapped class -/
 def allLayoutBad (t : Tables) : List Bad := t.cm.flatMap (classLayoutBad t)
 
-def allLayoutsOk (t : Tables) : Bool := (allLayoutBad t).isEmpty
-
-def sizeOk (t : Tables) (e : String × String × Bool) : Bool :=
-  match lookup e.1 t.pySizes, lookup e.2.1 t.cSizes with
+def sizeOk (t : Tables) (e : Name × Name × Bool) : Bool :=
+  match sizeOf? e.1 t.py, sizeOf? e.2.1 t.c with
   | some ps, some cs => if e.2.2 then ps ≤ cs && ps != 0 else ps == cs
   | _, _ => false
 
 def allSizesOk (t : Tables) : Bool := t.cm.all (sizeOk t)
 
-/-- every ctypes class of the package is mapped, every mapped class / structure was found with at least one member -/
+/-- every ctypes class of the package is mapped; every mapped class / structure was found with at least one member -/
 def allMapped (t : Tables) : Bool :=
-  t.pySizes.all (fun e => (lookup e.1 t.cm).isSome) &&
-  t.cm.all (fun e => (lookup e.1 t.pySizes).isSome && (lookup e.2.1 t.cSizes).isSome
-                     && !(fieldsOf e.1 t.pyRows).isEmpty && !(fieldsOf e.2.1 t.cRows).isEmpty)
+  t.py.all (fun e => (lookup e.1 t.cm).isSome) &&
+  t.cm.all (fun e => !(fieldsOf e.1 t.py).isEmpty && !(fieldsOf e.2.1 t.c).isEmpty)
 
-def classBadNames (t : Tables) (ren : List (String × String × String)) (e : String × String × Bool) :
-    List (String × String × String) :=
-  match pairUp (fieldsOf e.1 t.pyRows) (fieldsOf e.2.1 t.cRows) with
-  | none => [(e.2.1, "", "")]
+def classBadNames (t : Tables) (ren : List Triple) (e : Name × Name × Bool) : List Triple :=
+  match pairUp (fieldsOf e.1 t.py) (fieldsOf e.2.1 t.c) with
+  | none => [(e.2.1, [], [])]
   | some (prs, _) => badNames ren e.2.1 prs
 
-def allBadNames (t : Tables) (ren : List (String × String × String)) : List (String × String × String) :=
+def allBadNames (t : Tables) (ren : List Triple) : List Triple :=
   t.cm.flatMap (classBadNames t ren)
 
-def subsetTriples (a b : List (String × String × String)) : Bool :=
+def subsetTriples (a b : List Triple) : Bool :=
   a.all fun x => memTriple x.1 x.2.1 x.2.2 b
 
+def findPair (field : Name) : List (Field × List Field) → Option (List Field)
+  | [] => none
+  | pr :: r => if nameEq pr.1.name field then some pr.2 else findPair field r
+
 /-- the C member a ctypes field of a class is paired with (by the matcher) -/
-def pairedMember (t : Tables) (cls field : String) : Option String :=
+def pairedMember (t : Tables) (cls field : Name) : Option Name :=
   match lookup cls t.cm with
   | none => none
   | some (s, _) =>
-    match pairUp (fieldsOf cls t.pyRows) (fieldsOf s t.cRows) with
+    match pairUp (fieldsOf cls t.py) (fieldsOf s t.c) with
     | none => none
     | some (prs, _) =>
-      match prs.find? (fun pr => pr.1.name == field) with
-      | some (_, [c]) => some c.name
+      match findPair field prs with
+      | some [c] => some c.name
       | _ => none
 
 /-! ### options -/
 
-def norm (s : String) : String :=
-  String.ofList ((s.toList.filter Char.isAlphanum).map Char.toLower)
+def isAlnum (c : Nat) : Bool := (48 ≤ c && c ≤ 57) || (65 ≤ c && c ≤ 90) || (97 ≤ c && c ≤ 122)
+def lower (c : Nat) : Nat := if 65 ≤ c && c ≤ 90 then c + 32 else c
 
-def itemsOf (k : String) : List (String × String × Int) → List (String × Int)
+/-- names are compared modulo case and punctuation: "10,6,4" ~ "10_6_4", "whfast" ~ "WHFAST" -/
+def norm : Name → Name
   | [] => []
-  | (k', n, v) :: r => if k' == k then (n, v) :: itemsOf k r else itemsOf k r
+  | c :: r => if isAlnum c then lower c :: norm r else norm r
+
+def stripPrefix : Name → Name → Option Name
+  | [], s => some s
+  | _ :: _, [] => none
+  | a :: p, b :: s => if Nat.beq a b then stripPrefix p s else none
+
+def itemsOf (k : Name) : List (Name × Name × Int) → List (Name × Int)
+  | [] => []
+  | (k', n, v) :: r => if nameEq k' k then (n, v) :: itemsOf k r else itemsOf k r
+
+def findField (n : Name) : List Field → Option Field
+  | [] => none
+  | f :: r => if nameEq f.name n then some f else findField n r
 
 /-- the enumeration type of a C member -/
-def enumOfMember (cRows : List Row) (struct member : String) : Option String :=
-  match (fieldsOf struct cRows).find? (fun f => f.name == member) with
+def enumOfMember (cRows : StructTab) (struct member : Name) : Option Name :=
+  match findField member (fieldsOf struct cRows) with
   | some f => match f.kind with
     | .enm e _ _ => some e
     | _ => none
   | none => none
 
-/-- enumerators of `es` that mean `name`: prefix stripped, compared modulo case and punctuation -/
-def meaning (pre name : String) (es : List (String × Int)) : List (String × Int) :=
-  es.filter fun e => e.1.startsWith pre && norm (e.1.drop pre.length).toString == norm name
+/-- does enumerator `e` mean `name`: prefix stripped, compared modulo case and punctuation -/
+def means (pre name : Name) (e : Name) : Bool :=
+  match stripPrefix pre e with
+  | some rest => nameEq (norm rest) (norm name)
+  | none => false
+
+def meaning (pre name : Name) (es : List (Name × Int)) : List (Name × Int) :=
+  es.filter fun e => means pre name e.1
 
 structure OptTables where
-  cEnums : List (String × String × Int)
-  pyOpts : List (String × String × Int)
-  cRows : List Row
+  cEnums : List (Name × Name × Int)
+  pyOpts : List (Name × Name × Int)
+  cRows : StructTab
 
 /-- every Python name of the family has exactly one C enumerator of the same meaning, with the same value -/
 def optForward (o : OptTables) (f : OptFamily) : Bool :=
@@ -302,41 +393,46 @@ def distinctBy {α : Type} (eq : α → α → Bool) : List α → Bool
   | [] => true
   | x :: r => !(r.any (eq x)) && distinctBy eq r
 
-/-- the reverse map is a function: values pairwise distinct, names pairwise distinct (also modulo
-    normalisation), and every value is the value of some C enumerator whose meaning is that name -/
+/-- the reverse map is a function and inverts the forward map: values pairwise distinct, names pairwise
+    distinct modulo normalisation, C values pairwise distinct, and every C enumerator carrying a value of
+    the dictionary means the name stored with that value -/
 def optRoundtrip (o : OptTables) (f : OptFamily) : Bool :=
   let items := itemsOf f.dict o.pyOpts
-  distinctBy (fun a b => a.2 == b.2) items && distinctBy (fun a b => norm a.1 == norm b.1) items &&
+  distinctBy (fun a b => a.2 == b.2) items && distinctBy (fun a b => nameEq (norm a.1) (norm b.1)) items &&
   match enumOfMember o.cRows f.struct f.member with
   | none => false
   | some en =>
     let es := itemsOf en o.cEnums
     distinctBy (fun a b => a.2 == b.2) es &&
-    items.all fun it => (es.filter (fun e => e.2 == it.2)).all
-      fun e => e.1.startsWith f.pre && norm (e.1.drop f.pre.length).toString == norm it.1
+    items.all fun it => (es.filter (fun e => e.2 == it.2)).all fun e => means f.pre it.1 e.1
 
-/-- the property of the family reads and writes a ctypes field that the matcher pairs with the family's C member -/
-def optFieldTie (t : Tables) (props : List (String × String × String × String × List String))
-    (f : OptFamily) (role : String) : Bool :=
+abbrev PropRow := Name × Name × Name × Name × List Name
+
+/-- the property of the family (getter or setter) touches a ctypes field that the matcher pairs with the family's C member -/
+def optFieldTie (t : Tables) (props : List PropRow) (f : OptFamily) (role : Name) : Bool :=
   props.any fun p =>
-    p.1 == f.cls && p.2.1 == f.prop && p.2.2.1 == role && p.2.2.2.1 == f.dict &&
-    p.2.2.2.2.any fun a => pairedMember t f.cls a == some f.member
+    nameEq p.1 f.cls && nameEq p.2.1 f.prop && nameEq p.2.2.1 role && nameEq p.2.2.2.1 f.dict &&
+    p.2.2.2.2.any fun a => optNameEq (pairedMember t f.cls a) f.member
 
 def isFptr : Kind → Bool
   | .fptr _ _ => true
   | _ => false
 
+abbrev FnRow := Name × Name × Name × Name
+abbrev FnFamily := Name × Name × Name × Name × Name
+
 /-- function-pointer option: the stored symbol is `prefix ++ name`, is declared in the header, and the C member is a function pointer -/
-def fnOptOk (cRows : List Row) (cFns : List String)
-    (fm : List (String × String × String × String × String)) (r : String × String × String × String) : Bool :=
+def fnOptOk (cRows : StructTab) (cFns : List Name) (fm : List FnFamily) (r : FnRow) : Bool :=
   fm.any fun f =>
-    f.1 == r.1 && f.2.1 == r.2.1 && r.2.2.2 == f.2.2.2.2 ++ r.2.2.1 && memStr r.2.2.2 cFns &&
-    match (fieldsOf f.2.2.1 cRows).find? (fun x => x.name == f.2.2.2.1) with
+    nameEq f.1 r.1 && nameEq f.2.1 r.2.1 && nameEq r.2.2.2 (f.2.2.2.2 ++ r.2.2.1) && memName r.2.2.2 cFns &&
+    match findField f.2.2.2.1 (fieldsOf f.2.2.1 cRows) with
     | some x => isFptr x.kind
     | none => false
 
-def memPair (a b : String) : List (String × String) → Bool
+def memPair (a b : Name) : List (Name × Name) → Bool
   | [] => false
-  | (x, y) :: r => (x == a && y == b) || memPair a b r
+  | (x, y) :: r => (nameEq x a && nameEq y b) || memPair a b r
+
+def subsetPairs (a b : List (Name × Name)) : Bool := a.all fun x => memPair x.1 x.2 b
 
 end RV.Layout
